@@ -47,8 +47,15 @@ def _strip_comments(text):
     return re.sub(r'--.*', '', text)
 
 
+PKG = None   # lake package (directory under lean/) of the running check; set by run()
+
+
+def pkgdir():
+    return os.path.join(LEAN, PKG)
+
+
 def lean_lock():
-    f = open(os.path.join(LEAN, ".build.lock"), "w")
+    f = open(os.path.join(pkgdir(), ".build.lock"), "w")
     fcntl.flock(f, fcntl.LOCK_EX)
     return f
 
@@ -56,7 +63,7 @@ def lean_lock():
 def lake(args, timeout=1500):
     lock = lean_lock()
     try:
-        p = subprocess.run(["lake"] + args, cwd=LEAN, capture_output=True, text=True, timeout=timeout)
+        p = subprocess.run(["lake"] + args, cwd=pkgdir(), capture_output=True, text=True, timeout=timeout)
     except subprocess.TimeoutExpired:
         raise Infra("lake timed out: " + " ".join(args))
     finally:
@@ -65,7 +72,7 @@ def lake(args, timeout=1500):
 
 
 def module_file(mod):
-    return os.path.join(LEAN, *mod.split(".")) + ".lean"
+    return os.path.join(pkgdir(), *mod.split(".")) + ".lean"
 
 
 def module_closure(mod, seen=None):
@@ -127,7 +134,7 @@ def build_and_audit(props_mod, exe):
         res["broken"] += [f"forbidden construct {h} in {m}" for m, h in res["forbidden"]]
     # axiom audit
     audit = f"import {props_mod}\n" + "".join(f"#print axioms {t}\n" for t in thms)
-    apath = os.path.join(LEAN, ".audit", props_mod.split(".")[-1] + ".lean")
+    apath = os.path.join(pkgdir(), ".audit", props_mod.split(".")[-1] + ".lean")
     os.makedirs(os.path.dirname(apath), exist_ok=True)
     with open(apath, "w") as f:
         f.write(audit)
@@ -156,7 +163,7 @@ def build_and_audit(props_mod, exe):
 
 
 def run_driver(exe, lines, timeout=1200):
-    path = os.path.join(LEAN, ".lake", "build", "bin", exe)
+    path = os.path.join(pkgdir(), ".lake", "build", "bin", exe)
     if not os.path.exists(path):
         raise Infra(f"driver {path} missing")
     try:
@@ -173,7 +180,7 @@ def run_driver(exe, lines, timeout=1200):
 
 def write_gen(relpath, content):
     """(re)write a generated Lean file only if it changed; returns True when changed"""
-    path = os.path.join(LEAN, relpath)
+    path = os.path.join(pkgdir(), relpath)
     old = open(path).read() if os.path.exists(path) else None
     if old == content:
         return False
@@ -185,7 +192,7 @@ def write_gen(relpath, content):
 
 def git_dirty(relpath):
     """is lean/<relpath> different from what is committed in /verif (i.e. regenerated differently)?"""
-    p = subprocess.run(["git", "-C", VERIF, "diff", "--quiet", "--", os.path.join("lean", relpath)])
+    p = subprocess.run(["git", "-C", VERIF, "diff", "--quiet", "--", os.path.join("lean", PKG, relpath)])
     return p.returncode != 0
 
 
@@ -193,10 +200,16 @@ def git_dirty(relpath):
 # known findings
 
 def load_known():
-    path = os.path.join(VERIF, "known_findings.json")
-    if not os.path.exists(path):
-        return {}
-    return {e["id"]: e for e in json.load(open(path))}
+    out = {}
+    paths = [os.path.join(VERIF, "known_findings.json")]
+    d = os.path.join(VERIF, "known_findings.d")
+    if os.path.isdir(d):
+        paths += sorted(os.path.join(d, f) for f in os.listdir(d) if f.endswith(".json"))
+    for path in paths:
+        if os.path.exists(path):
+            for e in json.load(open(path)):
+                out[e["id"]] = e
+    return out
 
 
 # --------------------------------------------------------------------------
@@ -204,7 +217,8 @@ def load_known():
 
 class Check:
     pid = None            # "C26"
-    exe = None            # driver executable name (lean_exe target), or None if no model driver
+    pkg = None            # lake package directory under lean/
+    exe = "drv"           # driver executable name (lean_exe target), or None if no model driver
     props_mod = None      # "HioModel.Props.C26"
     quick_n = 300
     thorough_n = 5000
@@ -212,7 +226,7 @@ class Check:
     trusted_base = []
     assumptions = []
     rule = ""
-    checker_cmd = "cd lean && lake build <Props module> && lake env lean .audit/<Cxx>.lean  (#print axioms on every theorem)"
+    checker_cmd = "cd lean/<pkg> && lake build <Props module> && lake env lean .audit/<Cxx>.lean  (#print axioms on every theorem)"
 
     def extract(self):
         """translator step: regenerate lean/HioModel/Gen/* from /repo. returns list of relpaths written"""
@@ -301,6 +315,8 @@ def _shrink(check, case, bad):
 
 
 def run(check, tier, seed, replay=None):
+    global PKG
+    PKG = check.pkg
     t0 = time.time()
     hio_file = assert_tree()
     os.makedirs(EVID, exist_ok=True)
@@ -473,7 +489,7 @@ def run(check, tier, seed, replay=None):
         property_id=pid, tier=tier, seed=seed, level="proof",
         coverage=dict(
             obligations=b["obligations"], discharged=b["discharged"],
-            checker_cmd=check.checker_cmd.replace("<Props module>", check.props_mod or "").replace("<Cxx>", pid),
+            checker_cmd=check.checker_cmd.replace("<Props module>", check.props_mod or "").replace("<Cxx>", pid).replace("<pkg>", check.pkg or ""),
             trusted_base=["Lean 4.33.0 kernel", "axioms: " + ", ".join(sorted({a for v in b["axioms"].values() for a in v}) or ["none"])] + list(check.trusted_base),
             theorems={t: a for t, a in b["axioms"].items()},
             evaluations=len(cases), distinct_nontrivial=nontrivial, rule=check.rule,
